@@ -12,6 +12,7 @@ RULE = ("deterministic real runs (smooth, non-smooth, plateau with ties, optimum
         "non-trivial = the incumbent moved at least twice")
 TRUSTED = ["Coq 8.16.1 kernel + vm_compute", "hand-written model Model/Skeleton.v tied per loop iteration to real runs",
            "side conditions Model/SkeletonValid.v (sign/order of the float improvement agrees with the order of the values; estimate = observed value, SD 0) are checked on every recorded event, not proved: IEEE rounding is outside the model — in particular absorption (|fval| >= 2^53 * |difference|) can make two different values indistinguishable to _eval_improvement_",
+           "translate/loop.py regenerates the decision logic of optimize() / _search_step_ / _poll_step_ on every run (gen/Src_loop.v; fail-closed ast whitelist, writer and call-site census over the package); validated each run: the generated definitions evaluated by Coq on every recorded loop iteration of this panel (harness/comp_loop.py)",
            "result.x = inverse_transf(final u) and result.fval = final fval are compared by the tie"]
 ASSUMPTIONS = ["default incumbent policy (sloppy_improvement = True, stobads = False), improvement_quantile = 0.5"]
 
